@@ -77,12 +77,15 @@ fn main() {
     };
     for log_size in 0..=max_log {
         for shift_kind in 0..2 {
-            for gadget in ["selectors", "periodic1", "periodic2", "periodic4", "periodic2z", "periodic4z", "periodic4s", "periodic4m", "exp"] {
+            // pm_*: several periodic columns in ONE call, in ascending / descending / mixed period
+            // order (the per-call state of the gadget must not leak from one column to the next)
+            for gadget in ["selectors", "periodic1", "periodic2", "periodic4", "periodic2z", "periodic4z", "periodic4s", "periodic4m", "exp", "pm_2_4", "pm_4_2", "pm_1_2_4_2", "pm_2_4_8", "pm_8_4_2_8", "pm_2_1_8_4"] {
                 job += 1;
                 if job % args.nshards != args.shard {
                     continue;
                 }
-                let period = match gadget { "periodic1" => 1usize, "periodic2" | "periodic2z" => 2, "periodic4" | "periodic4z" | "periodic4s" | "periodic4m" => 4, _ => 0 };
+                let multi: Vec<usize> = if let Some(rest) = gadget.strip_prefix("pm_") { rest.split('_').map(|x| x.parse().unwrap()).collect() } else { vec![] };
+                let period = match gadget { "periodic1" => 1usize, "periodic2" | "periodic2z" => 2, "periodic4" | "periodic4z" | "periodic4s" | "periodic4m" => 4, _ => multi.iter().copied().max().unwrap_or(0) };
                 if period > (1 << log_size) {
                     continue;
                 }
@@ -105,6 +108,7 @@ fn main() {
                     "periodic4z" => vec![vec![SF::c(5), SF::c(7), SF::c(P - 3), SF::c(P - 9)]],
                     "periodic4s" => vec![vec![SF::c(1), SF::c(0), SF::c(P - 1), SF::c(0)]],
                     "periodic4m" => vec![vec![SF::c(1), SF::c(1), SF::c(0), SF::c(0)]],
+                    _ if !multi.is_empty() => multi.iter().map(|p| (0..*p).map(|_| SF::c(rnd())).collect()).collect(),
                     _ if period > 0 => vec![(0..period).map(|_| SF::c(rnd())).collect()],
                     _ => vec![],
                 };
@@ -117,7 +121,11 @@ fn main() {
                         native.push(("inv_vanishing".into(), s.inv_vanishing));
                     }
                     "exp" => native.push(("exp_power_of_2".into(), zeta.exp_power_of_2(log_size + 1))),
-                    _ => native.push(("periodic".into(), dom.evaluate_periodic_column_at(&cols[0], zeta))),
+                    _ => {
+                        for (k, c) in cols.iter().enumerate() {
+                            native.push((format!("periodic[{k}]"), dom.evaluate_periodic_column_at(c, zeta)));
+                        }
+                    }
                 }
                 // ---- circuit ----
                 let mut cb = CircuitBuilder::<SCh>::new();
